@@ -22,4 +22,6 @@ def page (j : Json) : Except String Json := do
   pure (Json.mkObj [("pages", Json.arr out.toArray),
                     ("html5", jstrs (raw.map (fun s => String.ofList (makeHtml5Id isWord s.toList))))])
 
+def ops : List (String × (Json → Except String Json)) := [("c09.page", page)]
+
 end SnootyVerif.Drv.C09
